@@ -365,6 +365,45 @@ def check_optional_batch_item_fields(ctx, t):
     ctx.count('optional_batch_item_field_dereferences', n, 3)
 
 
+
+CLIENT_MODULES = ('kmip/services/kmip_client.py', 'kmip/pie/client.py', 'kmip/services/kmip_protocol.py', 'kmip/services/results.py', 'kmip/pie/factory.py', 'kmip/core/factories/secrets.py')
+
+
+def check_no_shared_result_containers(ctx):
+    """C19.R12: no function of the client keeps a container between calls through a default argument."""
+    ctx.rule('C19.R12', 'what the client reports for one response contains nothing of an earlier one: no function of the client modules has a default argument that is a mutable container built once at definition time (a list / dict / set display, or list() / dict() / set() / bytearray()) and then filled, updated or returned - every call that relies on the default would share one object, so fields of an earlier answer (a server-generated IV, an identifier) would be reported for a later answer that does not carry them')
+    n = 0
+    for rel in CLIENT_MODULES:
+        t = ctx.src.tree(rel)
+        for fn in [x for x in ast.walk(t) if isinstance(x, (ast.FunctionDef, ast.AsyncFunctionDef))]:
+            args = fn.args
+            pos = args.posonlyargs + args.args
+            pairs = list(zip(pos[len(pos) - len(args.defaults):], args.defaults)) + [(a, d) for a, d in zip(args.kwonlyargs, args.kw_defaults) if d is not None]
+            n += 1
+            for a, d in pairs:
+                mutable = isinstance(d, (ast.List, ast.Dict, ast.Set, ast.ListComp, ast.DictComp, ast.SetComp)) or (isinstance(d, ast.Call) and call_name(d) in ('list', 'dict', 'set', 'bytearray', 'collections.OrderedDict', 'OrderedDict', 'collections.defaultdict', 'defaultdict'))
+                if not mutable:
+                    continue
+                uses = []
+                for x in walk_local(fn):
+                    if isinstance(x, (ast.Subscript, ast.Attribute)) and isinstance(x.ctx, (ast.Store, ast.Del)) and isinstance(x.value, ast.Name) and x.value.id == a.arg:
+                        uses.append(x)
+                    elif isinstance(x, ast.Call) and isinstance(x.func, ast.Attribute) and isinstance(x.func.value, ast.Name) and x.func.value.id == a.arg and x.func.attr in (
+                            'append', 'extend', 'insert', 'update', 'add', 'setdefault', 'pop', 'popitem', 'remove', 'discard', 'clear', 'sort'):
+                        uses.append(x)
+                    elif isinstance(x, ast.Return) and x.value is not None and any(isinstance(y, ast.Name) and y.id == a.arg for y in ast.walk(x.value)):
+                        uses.append(x)
+                    elif isinstance(x, ast.Assign) and isinstance(x.value, ast.Name) and x.value.id == a.arg:
+                        uses.append(x)
+                qn = fn.name
+                pcls = getattr(fn, '_parent', None)
+                if isinstance(pcls, ast.ClassDef):
+                    qn = pcls.name + '.' + fn.name
+                ctx.check(not uses, 'C19.R12', '%s|default %s=%s is filled or handed out' % (qn, a.arg, U(d)[:20]), '%s:%s %s' % (rel, (uses[0].lineno if uses else fn.lineno), qn),
+                          'the mutable default of %s is never modified or handed out' % a.arg,
+                          'parameter %s defaults to %s, one object created when the function is defined, and the function fills or returns it (%s): results of different calls share it, so what an earlier response carried shows up in the report of a later one' % (a.arg, U(d)[:30], ' '.join(U(uses[0]).split())[:60] if uses else ''))
+    ctx.count('client_functions_scanned', n, 100)
+
 def run(ctx):
     src = ctx.src
     for rid, text in (
@@ -741,6 +780,13 @@ def run(ctx):
             for kind, desc, nm in compare_schemas(R, W, v):
                 if kind in ('written-not-read', 'presence', 'repetition', 'order'):
                     agg.setdefault((kind, desc, nm), []).append(v)
+        # the reader takes an element only for some VALUES of another field while the writer emits it whatever that value is
+        wdepth_ = {e['tag'] or e['ident']: len(e.get('conds') or []) for e in W.events}
+        for e in R.events:
+            k_ = e['tag'] or e['ident']
+            outer_ = [c_ for c_ in (e.get('conds') or [])[:-1] if c_[0] == 'value']
+            if outer_ and wdepth_.get(k_, 0) <= 1:
+                agg.setdefault(('presence', 'the reader accepts %s only when %s, while the writer emits it whenever it is set' % (k_, ' and '.join(c_[1] for c_ in outer_)), 'read only when ' + '/'.join(c_[1] for c_ in outer_) + ':' + str(k_)), []).append(VERSIONS[-1])
         site = '%s:%s %s' % (ref[0], rf.lineno, cname)
         if not agg:
             ctx.ok('C19.R11', site, 'everything %s.write emits is accepted by %s.read under all versions' % (cname, cname))
@@ -800,6 +846,7 @@ def run(ctx):
     # ---------------- R10 a response cut short inside a value is refused by the decoder, not returned as data (shared with C12.R7)
     from .c12 import check_short_reads
     check_short_reads(ctx, 'C19.R10', tail=' - the client decodes responses with the same primitives: a response truncated or mis-sized inside such a value is returned to the caller as (shorter) data instead of raising')
+    check_no_shared_result_containers(ctx)
     ctx.not_decided += ['that the data returned on success equals the payload values (field-by-field naming of result objects is only checked for status/reason/message)']
     ctx.assumptions += ['socket.recv(n) returns at most n bytes and b"" at end of stream']
     check_optional_batch_item_fields(ctx, src.tree(PROXY))
